@@ -157,6 +157,20 @@ var apis = []apiInfo{
 		}
 		return sb.String()
 	}, 3, false, 4, false},
+	{"AllIndexNested", func(re *coregex.Regex, b []byte, s string, op *Op) string {
+		// the loop body calls back into the same value while the iterator is suspended
+		// (two per-search states checked out at once without any goroutine)
+		var sb strings.Builder
+		k := 0
+		for m := range re.AllIndex(b) {
+			fmt.Fprintf(&sb, "%v%v", m, re.Match(b[m[0]:m[1]]))
+			k++
+			if op.N > 0 && k >= op.N {
+				break
+			}
+		}
+		return sb.String()
+	}, 3, false, 2, false},
 	{"AllStringIndex", func(re *coregex.Regex, b []byte, s string, op *Op) string {
 		var sb strings.Builder
 		k := 0
